@@ -185,13 +185,8 @@ class redis_lock(base_lock):
         '''
         lock.get()
         '''
-        # We need getset to be race-free
-        previous = self.redis.getset(self.name, _LOCKED)
-
-        if previous == _FAILED:
-            self.redis.set(self.name, previous)
-
-        return (previous is None)
+        # SETNX is race-free and leaves a held or failed lock untouched
+        return bool(self.redis.setnx(self.name, _LOCKED))
 
 
     def release(self):
